@@ -27,6 +27,11 @@ inductive GenKind where
   | stream (sid : Nat)                  -- any callable that ignores time (time_dependent=False, counters)
   deriving DecidableEq, Repr
 
+inductive Exc where
+  | stopIteration | userError | indexError | valueError
+  | malformed          -- the case refers to something that does not exist: not an input
+  deriving DecidableEq, Repr
+
 /-- A value generator with the attributes `Dynamic._initialize_generator` adds to it.
 `saved` is `zip(_saved_Dynamic_last, _saved_Dynamic_time)`, most recent first: the two
 Python lists are reset / appended / popped together at their only three use sites
@@ -37,11 +42,12 @@ structure Gen (V : Type) where
   last : Option V                  -- _Dynamic_last   (None = placeholder)
   lastTime : Option Int            -- _Dynamic_time; none = the marker `_NO_TIME`, unequal to every time
   saved : List (Option V × Option Int)
+  fail : Option (Nat × Exc) := none   -- a fault: the k-th call (0-based) raises instead of returning
   deriving DecidableEq, Repr
 
 /-- src: param/parameters.py Dynamic._initialize_generator -/
-def Gen.fresh {V} (k : GenKind) : Gen V :=
-  { kind := k, calls := 0, last := none, lastTime := none, saved := [] }
+def Gen.fresh {V} (k : GenKind) (fail : Option (Nat × Exc) := none) : Gen V :=
+  { kind := k, calls := 0, last := none, lastTime := none, saved := [], fail := fail }
 
 /-- src: param/parameters.py Dynamic._initialize_generator (on an existing callable) -/
 def Gen.reinit {V} (g : Gen V) : Gen V :=
@@ -86,14 +92,9 @@ inductive Target where
   deriving DecidableEq, Repr
 
 inductive Src where
-  | fresh (k : GenKind)
+  | fresh (k : GenKind) (fail : Option (Nat × Exc) := none)
   | existing (g : Nat)
   | const (v : Int)
-  deriving DecidableEq, Repr
-
-inductive Exc where
-  | stopIteration | userError | indexError | valueError
-  | malformed          -- the case refers to something that does not exist: not an input
   deriving DecidableEq, Repr
 
 inductive Op where
@@ -158,11 +159,33 @@ def produceValue (env : Env H V) (dynTD : Bool) (now : Int) (g : Gen V) (force :
   else
     (g.last, g)
 
+/-- the exception the generator raises if it is called now -/
+def Gen.failsNow (g : Gen V) : Option Exc :=
+  match g.fail with
+  | some (k, e) => if k == g.calls then some e else none
+  | none => none
+
+/-- whether `_produce_value` calls the generator -/
+def willCall (dynTD : Bool) (now : Int) (g : Gen V) (force : Bool) : Bool :=
+  !dynTD || force || some now != g.lastTime
+
 /-- src: param/parameters.py Number.__get__ -> _validate of a dynamically generated value -/
 def validateRead (pt : PType) (v : Option V) : Res V :=
   match pt, v with
   | .number, none => .raised .valueError
   | _, v => .ok (.val v)
+
+/-- reading through one generator object.
+src: param/parameters.py Dynamic._produce_value as called by __get__ / _force -/
+def readGen (env : Env H V) (dynTD : Bool) (now : Int) (pt : PType) (g : Gen V) (force : Bool) : Res V × Gen V :=
+  match (if willCall dynTD now g force then g.failsNow else none) with
+  | some e =>
+    -- `value = _produce_value(gen)` raises: neither `_Dynamic_last` nor `_Dynamic_time` is assigned
+    (.raised e, { g with calls := g.calls + 1 })
+  | none =>
+    let r := produceValue env dynTD now g force
+    -- `_force` is called on the Parameter directly: no Number validation there
+    ((if force then .ok (.val r.1) else validateRead pt r.1), r.2)
 
 /-- src: param/parameters.py Dynamic.__get__ (force = false), Dynamic._force (force = true) -/
 def readSlot (env : Env H V) (w : World V) (tg : Target) (p : Nat) (force : Bool) : Res V × World V :=
@@ -172,9 +195,8 @@ def readSlot (env : Env H V) (w : World V) (tg : Target) (p : Nat) (force : Bool
     match w.gens[gi]? with
     | none => (.raised .malformed, w)
     | some g =>
-      let r := produceValue env w.dynTD w.clock.time g force
-      -- `_force` is called on the Parameter directly: no Number validation there
-      ((if force then .ok (.val r.1) else validateRead pt r.1), { w with gens := w.gens.set gi r.2 })
+      let r := readGen env w.dynTD w.clock.time pt g force
+      (r.1, { w with gens := w.gens.set gi r.2 })
   | _, _ => (.raised .malformed, w)
 
 /-- src: param/parameters.py Dynamic._inspect -/
@@ -234,10 +256,10 @@ def instantiate : List Slot → List (Gen V) → List Slot × List (Gen V)
 src: param/parameters.py Dynamic.__set__ -> _initialize_generator(val, obj) -/
 def srcSlot (w : World V) : Src → Option (Slot × List (Gen V))
   | .const v => some (.const v, w.gens)
-  | .fresh (.td n s) =>
+  | .fresh (.td n s) f =>
     -- numbergen TimeAware._check_time_fn asserts that Dynamic.time_dependent is on
-    if w.dynTD then some (.gen w.gens.length, w.gens ++ [Gen.fresh (.td n s)]) else none
-  | .fresh (.stream sid) => some (.gen w.gens.length, w.gens ++ [Gen.fresh (.stream sid)])
+    if w.dynTD then some (.gen w.gens.length, w.gens ++ [Gen.fresh (.td n s) f]) else none
+  | .fresh (.stream sid) f => some (.gen w.gens.length, w.gens ++ [Gen.fresh (.stream sid) f])
   | .existing g =>
     match w.gens[g]? with
     | none => none
